@@ -58,7 +58,7 @@ CLAIMS = {
    "Trusted: go/ssa, call graph, goexpect reports time-out/EOF as error, panic unwinding semantics, the exempt rows of tables/err_exempt.tsv (each with a written reason).",
    "DESIGN.md section 4 C09, E6"),
  "C15": ("other",
-   "typestate / ordering rules by dominance and reachability on go/ssa of package ios (who-may-call of the change sender over the call graph, stores to the reloadActive flag, def-use chain banner-strip -> echo check, accumulation of the re-arm flag)",
+   "typestate / ordering rules by dominance and reachability on go/ssa of package ios (who-may-call of the change sender over the call graph, stores to the reloadActive flag, def-use chain banner-strip -> echo check, accumulation of the re-arm flag; call-graph reachability of the echo check from every console call inside the reload window)",
    "Decides the structural core on every run: every IOS change command is sent by the one sender whose call sites are all dominated by arming the reload and a deferred cancel; configuration mode lies inside the guard; write memory is a plain call after the guarded function returned (cancel has run), nothing is sent in between; reloadActive is raised/lowered only where reload in N / reload cancel are sent; banners are stripped before the echo check; after waiting for the asynchronous SHUTDOWN ABORTED text the prompt behind it is consumed before the next command is sent; the commands and patterns of the reload dialogue are among the audited ones (the extra prompt is awaited at the end of the buffer); the one-minute matcher accepts both spellings IOS prints and the one-minute verdict derives from the stripped banner and is accumulated over both halves of a joined command and triggers the re-arm; the device's answer to both halves of every change command decides over the abort on every path (the verdict is not overwritten), so write memory is not reached after a rejected command. One genuine defect found by this rule was repaired (fix: 6536eea). Not decided: all byte offsets of an asynchronous banner.",
    "Trusted: go/ssa, call graph; banner forms are those bannerRe matches.",
    "DESIGN.md section 4 C15"),
@@ -78,7 +78,7 @@ CLAIMS = {
    "Trusted: go/ssa, call graph.",
    "DESIGN.md section 4 C03-C05"),
  "C07": ("other",
-   "guard-set analysis (all controlling conditions of a site, normalised, from go/ssa dominance) compared with an audited table; inter-procedural string-pattern evaluation of PAN-OS commands; guard check of the NSX load filter",
+   "guard-set analysis (all controlling conditions of a site, normalised, from go/ssa dominance) compared with an audited table; inter-procedural string-pattern evaluation of PAN-OS commands; guard check of the NSX load filter; language inclusion / overlap of the cmdInfo templates read from the string literal (first-match order, ignore entries)",
    "Decides named necessary conditions of the frame property: NSX objects enter the model only under HasPrefix(id, \"Netspoc\"); every PAN-OS command's xpath is rooted at /config/devices/entry[..]/vsys/entry[..] of the targeted vsys; the Cisco protection sites (markNeeded for unknown interfaces / unmanaged VRFs, deletion-candidate test, the walk protecting everything an unmanaged object references, deletion only when unreferenced, no change for aaa-server / ldap attribute-map / interface, routes deleted only where the target has routes) are controlled by exactly their audited conditions, and every store into the marks needed / ready / toDelete of package cisco lies at an audited site; the Cisco parser's line state (previous command, first-sub-command flag, indentation) is replaced exactly under its audited conditions, so lines of an unmodelled command are not attached to a modelled one; maps from a name to its commands are filled by accumulation (one genuine defect found by this rule was repaired, fix: e648ceb). The whole-device frame condition for arbitrary unmanaged content is NOT decided.",
    "Trusted: go/ssa, call graph, the audited guard sets of tables/guards.tsv (each row with its reason).",
    "DESIGN.md section 4 C07"),
@@ -88,7 +88,7 @@ CLAIMS = {
    "Trusted: go/ssa, call graph, audited guard rows.",
    "DESIGN.md section 4 C08, Appendix B"),
  "C14": ("other",
-   "ordered-phase rules by reachability within loop iterations on go/ssa (insert/move before reverse before delete; resequence first/last; routes add before delete; sort before compare); store-vs-use phase rule for the IOS block marking; value-shape rule for joined delete+add lines; single-pass fill rule for the delete/insert lists; loop-carried-state audit",
+   "ordered-phase rules by reachability within loop iterations on go/ssa (insert/move before reverse before delete; resequence first/last; routes add before delete; sort before compare); store-vs-use phase rule for the IOS block marking; value-shape rule for joined delete+add lines and path rule (no path from an add inside moveACL to the return avoids the join); single-pass fill rule for the delete/insert lists; loop-carried-state audit",
    "Decides the order skeleton that the safety argument rests on: in both ACL planners every insert/move precedes the reversal of the delete list, which precedes every delete, and the reversed list is the one walked; IOS resequence brackets all numbered commands; the block-id marking is complete before any move decision and block numbers (also of split-off parts) come from a running counter; the flags that send an ACL to full replacement instead of the incremental planner keep their audited conditions; route inserts/replacements precede deletes for Cisco and Linux, routes are sorted more-specific-first before comparison; moves and same-destination route replacements are one joined line; the delete list (and the ASA insert list) is filled in one pass over the ascending diff ranges, so reversing it is bottom-up. Packet-level verdicts of intermediate ACLs are NOT decided.",
    "Trusted: go/ssa, call graph.",
    "DESIGN.md section 4 C14, Appendix B"),
